@@ -198,6 +198,7 @@ SPECS += [
                   "sampling_method_InverseTransform_initial_p": "positive", "sampling_method_InverseTransform_initial_x": "positive"},
          nodes={"entry": [], "hin": ["p", "x", "u"], "h2pe_outer": [], "h2pe_inner": [], "h2pe_up": [], "h2pe_down": []},
          unspecified_nodes=["h2pe_outer", "h2pe_inner", "h2pe_up", "h2pe_down"], skip_variants={"sampling_method": ["RejectionAcceptance"]},
+         iterators="ignore",        # the for-range loops of this function are H2PE's step 4.1, inside the unspecified nodes
          rules={"entry": [("variant sampling_method InverseTransform",
                            "goto hin {p: sampling_method_InverseTransform_initial_p, x: sampling_method_InverseTransform_initial_x, u: u0}"), (None, "unspecified")],
                 # P(x + 1) / P(x) = (n1 - x)(k - x) / ((x + 1)(n2 - k + x + 1))
